@@ -587,6 +587,7 @@ struct BoundarySpace {
          add({"crlf", "trunc " + std::to_string(e.len / 2)}); add({"trunc 5"}); add({"trunc 6"}); add({"trunc 7"});
          for (long target : {255L, 256L, 257L, 511L, 512L, 513L, 1023L, 1024L, 1025L, 4095L, 4096L, 4097L, 8191L, 8192L, 8193L, 65535L, 65536L})
             if ((size_t)target > e.len) add({"pad " + std::to_string((size_t)target - e.len)}); else add({"trunc " + std::to_string(target)});
+         for (long line : {0L, 1L, 2L, 5L, 12L, 30L, 60L}) for (long n : {1000L, 20000L}) add({"bulk " + std::to_string(line) + " " + std::to_string(n)});
          for (long target : {4096L, 8192L, 65536L}) if ((size_t)target > 2 * e.len) { add({"crlf", "pad " + std::to_string((size_t)target - e.len - 100), "trunc " + std::to_string(target)}); }
       }
       total = n_ins + n_chunk + edge.size();
